@@ -325,7 +325,7 @@ func (p *pvWrap) SignVote(chainID string, vote *tmproto.Vote) error {
 		p.n.sim.onSigned(p.n, chainID, vote, nil)
 	} else {
 		p.n.sim.env.Count("probe.sign_refused")
-		p.n.sim.noteRefusal(p.n, vote.Height)
+		p.n.sim.noteRefusal(p.n, vote.Height, vote.Round, int(vote.Type))
 	}
 	p.n.point("pv:SignVote:post")
 	return err
@@ -344,7 +344,7 @@ func (p *pvWrap) SignProposal(chainID string, prop *tmproto.Proposal) error {
 		p.n.sim.onSigned(p.n, chainID, nil, prop)
 	} else {
 		p.n.sim.env.Count("probe.sign_refused")
-		p.n.sim.noteRefusal(p.n, prop.Height)
+		p.n.sim.noteRefusal(p.n, prop.Height, prop.Round, 0)
 	}
 	p.n.point("pv:SignProposal:post")
 	return err
@@ -390,6 +390,7 @@ type simNode struct {
 	crashAt        int // persistence point index at which to crash (0 = not armed)
 	crashed        *crashInfo
 	starting       bool
+	replayRefused  []refusal // signatures refused during the current WAL replay
 	skew           time.Duration
 	lastHeight     int64
 	startFails     int
@@ -545,6 +546,10 @@ func (n *simNode) boot() {
 		n.mu.Lock()
 		n.starting = false
 		n.mu.Unlock()
+		func() {
+			defer func() { _ = recover() }()
+			s.settleReplayRefusals(n)
+		}()
 	}()
 	config := n.config()
 	if debugLog {
